@@ -184,6 +184,10 @@ func TestSim(t *testing.T) {
 			if strings.Contains(origin, "valyala/fasthttp") || strings.Contains(origin, "valyala/bytebufferpool") {
 				fn := frameFunc(origin)
 				e.Violation("panic/"+fn, "a fasthttp goroutine (%s) panicked: %s; origin %s\n%s", tp.Site, tp.Value, origin, clip(tp.Stack, 1800))
+			} else if strings.Contains(fmt.Sprint(tp.Value), "instrumented stream panic") && !strings.HasPrefix(tp.Site, "actor:") {
+				// the scenario made a body stream's Read panic (C34's subject) and the
+				// panic escaped from a goroutine that fasthttp started: the process is gone
+				e.Violation("panic/body-stream-read-escaped", "a panic raised by a body stream's Read escaped from the fasthttp goroutine %s: the process would have crashed\n%s", tp.Site, clip(tp.Stack, 1500))
 			} else if e.harnessPanic == "" {
 				e.harnessPanic = fmt.Sprintf("task %s (%s): %s\n%s", tp.Task, tp.Site, tp.Value, tp.Stack)
 			}
